@@ -8,6 +8,7 @@ import (
 	"bufio"
 	"io"
 	"net"
+	"sync"
 	"time"
 
 	"qchen.fun/fatchoy"
@@ -27,6 +28,7 @@ type TcpConn struct {
 	conn   net.Conn      // TCP connection object
 	reader io.Reader     // buffered read
 	writer *bufio.Writer // buffered write
+	mu     sync.RWMutex  // SendPacket's check-and-enqueue (read side) vs. the Running->Shutdown flip (write side)
 }
 
 func NewTcpConn(node fatchoy.NodeID, conn net.Conn, enc codec.Encoder, errChan chan error,
@@ -64,6 +66,8 @@ func (t *TcpConn) Go(flag fatchoy.EndpointFlag) {
 }
 
 func (t *TcpConn) SendPacket(pkt fatchoy.IPacket) error {
+	t.mu.RLock()
+	defer t.mu.RUnlock()
 	if !t.IsRunning() {
 		return ErrConnIsClosing
 	}
@@ -76,8 +80,17 @@ func (t *TcpConn) SendPacket(pkt fatchoy.IPacket) error {
 	}
 }
 
+// beginShutdown elects the single closer. It excludes SendPacket's check-and-enqueue, so every packet
+// accepted before the flip is in the queue when the writer flushes, and none is enqueued after it
+// (the queue can then be closed safely).
+func (t *TcpConn) beginShutdown() bool {
+	t.mu.Lock()
+	defer t.mu.Unlock()
+	return t.state.CAS(fatchoy.StateRunning, fatchoy.StateShutdown)
+}
+
 func (t *TcpConn) Close() error {
-	if !t.state.CAS(fatchoy.StateRunning, fatchoy.StateShutdown) {
+	if !t.beginShutdown() {
 		// log.Errorf("TcpConn: connection %v is already closed", t.node)
 		return nil
 	}
@@ -91,7 +104,7 @@ func (t *TcpConn) Close() error {
 }
 
 func (t *TcpConn) ForceClose(err error) {
-	if !t.state.CAS(fatchoy.StateRunning, fatchoy.StateShutdown) {
+	if !t.beginShutdown() {
 		// log.Errorf("TcpConn: connection %v is already closed", t.node)
 		return
 	}
